@@ -119,10 +119,15 @@ def run(ctx: Ctx):
         raise AnalysisError(f"C08: N, T, F = feats.shape not found in {f.qualname}")
     _, Ta, Fa = shape_names(app)
     warps = sorted([c for c in own_calls(app.node) if call_name(c) == "warp_1d_grid"], key=lambda c: c.lineno)
-    okw = len(warps) == 2 and [u(a) for a in warps[0].args[:2]] == names[0:2] and [u(a) for a in warps[1].args[:2]] == names[2:4] \
-        and u(warps[0].args[3]) == Ta and u(warps[1].args[3]) == Fa and u(warps[0].args[2]) == "lengths"
+    wgf = pkg.func(f"{MOD}::warp_1d_grid")
+
+    def _wargs(c):  # (src, flow, lengths, max_length) of a warp_1d_grid call, positional or by keyword
+        b_ = bind_args(c, wgf, False)
+        return [u(b_.arg_for(p_.name)) if b_.arg_for(p_.name) is not None else None for p_ in wgf.params[:4]]
+    okw = len(warps) == 2 and _wargs(warps[0])[:2] == names[0:2] and _wargs(warps[1])[:2] == names[2:4] \
+        and _wargs(warps[0])[3] == Ta and _wargs(warps[1])[3] == Fa and _wargs(warps[0])[2] == "lengths"
     col.ob("G2", "S2", f"{rel}::spec_augment_apply_parameters::warp-slots", okw,
-           f"warps use {[[u(a) for a in c.args[:4]] for c in warps]}; expected (slot0, slot1, lengths, T) for time and "
+           f"warps use {[_wargs(c) for c in warps]}; expected (slot0, slot1, lengths, T) for time and "
            f"(slot2, slot3, F.., F) for frequency", rel, app.line)
     # interval masks: i >= start & i < start + width, over T with slots (4,5), over F with slots (6,7)
     mask_ok = {}
